@@ -29,7 +29,7 @@ func init() { core.Register(prop{}) }
 func (prop) ID() string    { return "C12" }
 func (prop) Level() string { return "exploration" }
 func (prop) Rule() string {
-	return "scenario = one service (ssh-simulator, ldap, ftp), one credential set (users {root,admin,guest,''} x passwords {root,admin,123456,''}, size 0..3, plus the wildcard and an entry without ':'; ftp has its fixed set) and one attempt sequence of length <=4 with gated-operation probes before and after each attempt (exhaustive for sets of size <=1 x sequences <=2 in thorough, seeded otherwise), through the real dispatcher with the real protocol clients. Oracle: outcome per attempt == (user:password in set, or wildcard where the service defines one); one authentication event per attempt carrying the presented password and the evaluated user; gated operations refused before any successful login. Non-trivial = >=1 attempt got a protocol answer; distinct by (service, set, sequence). Bystander scenarios (ldap, ftp): a second connection logs in with a configured credential while the judged connection is open (opened before or after it); the judged connection's expectations are unchanged. ssh-simulator sequences of 5-12 wrong passwords for the configured user followed by the configured pair on one connection. LDAP binds alternate between the advertised protocol versions 2 and 3."
+	return "scenario = one service (ssh-simulator, ldap, ftp), one credential set (users {root,admin,guest,''} x passwords {root,admin,123456,''}, size 0..3, plus the wildcard and an entry without ':'; ftp has its fixed set) and one attempt sequence of length <=4 with gated-operation probes before and after each attempt (exhaustive for sets of size <=1 x sequences <=2 in thorough, seeded otherwise), through the real dispatcher with the real protocol clients. Oracle: outcome per attempt == (user:password in set, or wildcard where the service defines one); one authentication event per attempt carrying the presented password and the evaluated user; gated operations refused before any successful login. Non-trivial = >=1 attempt got a protocol answer; distinct by (service, set, sequence). Bystander scenarios (ldap, ftp): a second connection logs in with a configured credential while the judged connection is open (opened before or after it); the judged connection's expectations are unchanged. ssh-simulator sequences of 5-12 wrong passwords for the configured user followed by the configured pair on one connection. LDAP binds alternate between the advertised protocol versions 2 and 3. The wildcard or an entry without ':' sits at a random position of the credential list."
 }
 func (prop) Assumptions() []string {
 	return []string{"LDAP: the empty/empty bind is the protocol's anonymous bind (success without login); names are presented bare or as cn=<name>,dc=example,dc=com and the service evaluates the RDN value", "the wildcard entry is honoured only by ssh-simulator; for LDAP an entry without ':' matches nothing", "the statement demands refusal before a login has succeeded; what happens to gated operations after a successful login is not judged (and later failed attempts are not required to log the user out)"}
